@@ -4,7 +4,7 @@
 //! component of a check (DESIGN 5.2).
 //!
 //! `vharness monitor --prop <name> [--runs R] [--steps S] [--seed s] [--run k]
-//!                   [--inject <name>] [--ignore sig1,sig2] [--strict]`
+//!                   [--inject <name>] [--ignore sig1,sig2] [--strict] [--learner-campaign]`
 //!
 //! Output: `FAIL --prop <name> --seed <s> --run <k> --steps <S>` / `REASON <kind>: <text>` /
 //! indented trace lines, or `MONITOR-OK runs=R calls=N`.
@@ -398,6 +398,7 @@ pub struct MonitorSet {
     /// length of the simulator trace when the run was halted, and the cluster state then
     pub halt_at: usize,
     pub fail_state: Vec<String>,
+    pub cover: BTreeMap<&'static str, u64>,
 }
 
 impl MonitorSet {
@@ -408,7 +409,7 @@ impl MonitorSet {
             cl: BTreeMap::new(), own: vec![], max_commit_ever: 0, leader_of: BTreeMap::new(), max_leader_commit: 0,
             promised_term: vec![], granted: BTreeMap::new(), next_apply: vec![], handed: vec![], last_has_ready: vec![],
             reads: BTreeMap::new(), lead_start: vec![], cur_apply: vec![], conf_after: BTreeMap::new(),
-            transfer_ticks: vec![], window: None, inject_ctr: 0, panics_seen: 0, halt_at: 0, fail_state: vec![],
+            transfer_ticks: vec![], window: None, inject_ctr: 0, panics_seen: 0, halt_at: 0, fail_state: vec![], cover: BTreeMap::new(),
         }
     }
 
@@ -418,6 +419,11 @@ impl MonitorSet {
 
     pub fn inj(&self, name: &str) -> bool {
         self.inject == name
+    }
+
+    /// coverage counter (printed as COVER lines): how often a check was actually exercised
+    pub fn cov(&mut self, k: &'static str) {
+        *self.cover.entry(k).or_insert(0) += 1;
     }
 
     pub fn note(&mut self, k: &str) {
@@ -633,7 +639,11 @@ pub fn main(args: &[String]) {
     let ignore: Vec<String> = ignore_s.split(',').filter(|s| !s.is_empty()).map(|s| s.replace(' ', "_")).collect();
     let strict = args.iter().any(|a| a == "--strict");
     let verbose = args.iter().any(|a| a == "--verbose");
-    let vco = args.iter().any(|a| a == "--voter-campaign-only");
+    // By default the simulated application never calls campaign() on a node that is not a voter of
+    // its own configuration (the library does not guard against it: hup() lacks the promotable
+    // check); --learner-campaign lifts the restriction.
+    let learner_campaign = args.iter().any(|a| a == "--learner-campaign");
+    let vco = !learner_campaign;
     let flags = match Flags::of(&prop) {
         Some(f) => f,
         None => {
@@ -648,6 +658,7 @@ pub fn main(args: &[String]) {
     let mut calls = 0u64;
     let mut notes: BTreeMap<String, u64> = BTreeMap::new();
     let mut ignored: BTreeMap<String, u64> = BTreeMap::new();
+    let mut cover: BTreeMap<&'static str, u64> = BTreeMap::new();
     for k in &ks {
         let mut sim = Sim::new(seed.wrapping_mul(1_000_003).wrapping_add(*k), Recorder::disabled());
         sim.keep_trace = true;
@@ -673,6 +684,9 @@ pub fn main(args: &[String]) {
         for (a, b) in &m.ignored {
             *ignored.entry(a.clone()).or_insert(0) += b;
         }
+        for (a, b) in &m.cover {
+            *cover.entry(a).or_insert(0) += b;
+        }
         if let Some(v) = &m.violation {
             let mut line = format!("FAIL --prop {} --seed {} --run {} --steps {}", prop, seed, k, steps);
             if !inject.is_empty() {
@@ -684,8 +698,8 @@ pub fn main(args: &[String]) {
             if strict {
                 line.push_str(" --strict");
             }
-            if vco {
-                line.push_str(" --voter-campaign-only");
+            if learner_campaign {
+                line.push_str(" --learner-campaign");
             }
             println!("{}", line);
             println!("REASON {}", v);
@@ -707,5 +721,8 @@ pub fn main(args: &[String]) {
     }
     for (a, b) in ignored {
         println!("IGNORED {} {}", b, a);
+    }
+    for (a, b) in cover {
+        println!("COVER {} {}", b, a);
     }
 }
